@@ -1116,7 +1116,7 @@ var probeDoc = map[string][2]string{
 	"UnwrapNilGuard":           {"C06", "Struct{a: Preprocess(pass-through, String())}.Parse(map{a: (*string)(nil)}) and a pointer to that nil pointer: must not panic"},
 	"EmbeddedNilGuard":         {"C06", "Struct{a: String()}.Parse(struct{ *Embedded; B int }{}) (field A promoted through a nil embedded pointer): must not panic"},
 	"NilBodyGuard":             {"C06 C15", "Struct{a: String()}.Parse(zjson.Decode(nil)): must not panic"},
-	"SliceDefaultDeep":         {"C19 C17", "Slice(Slice(String())).Default([[a b]]).PostTransform(value[0][0] = MUTATED) validated twice on empty values: the second use must still see the default [[a b]]; likewise defaults of type []*int, []Stop{Geo{Tags []string}} (a struct holding a struct that holds a slice), []PStop{Geo *Geo}, []Cell{P *int}, [][]*int, and an empty inner slice with spare capacity that the PostTransform appends to — after two uses with an in-place write through the validated value the default as the caller wrote it must be unchanged"},
+	"SliceDefaultDeep":         {"C19 C17", "Slice(Slice(String())).Default([[a b]]).PostTransform(value[0][0] = MUTATED) validated twice on empty values: the second use must still see the default [[a b]]; likewise defaults of type []*int, []Stop{Geo{Tags []string}} (a struct holding a struct that holds a slice), []PStop{Geo *Geo}, []Cell{P *int}, [][]*int, an empty inner slice with spare capacity that the PostTransform appends to, and structs with map fields whose values are slices / pointers — after two uses with an in-place write through the validated value the default as the caller wrote it must be unchanged"},
 	"CloneCopies":              {"C16", "base with three tests; A := base.Pick(a).Test(tA); B := base.Omit(a).Test(tB); C := base.Extend({}).Test(tC): running A must run tA and neither tB nor tC (same with PostTransforms)"},
 }
 
